@@ -11,7 +11,7 @@ BOUNDS = ("NumPy shapes (3,), (2,2); Awkward layouts: flat, jagged (with an empt
           "(timelike, forward, off-axis, away from +-pi); binary pairings np-np, ak-ak, np-obj, obj-np, ak-obj, obj-ak, ak-np, np-ak, record-record (+4 more in the thorough tier)")
 
 
-def run(prop, tags, title, extra_checks=None, assumptions=(), replay_handler="vv.props.engined_prop:replay"):
+def run(prop, tags, title, extra_checks=None, assumptions=(), replay_handler="vv.props.engined_prop:replay", symbolic_numpy=False):
     """tags: the property tags of the lattice obligations that belong to this check"""
     report = C.Report(prop)
     t0 = time.time()
@@ -24,11 +24,22 @@ def run(prop, tags, title, extra_checks=None, assumptions=(), replay_handler="vv
     pr = [(oid.replace(p + "/", prop + "/", 1), ok, d) for p, oid, ok, d in E.probes() if p in tags]
     extra = []
     n_extra = 0
+    sym = None
+    if symbolic_numpy:
+        from .. import npsym, objsym
+        shapes = ((3,), (2, 2)) if C.tier() == "quick" else ((3,), (2, 2), (2, 1, 2))
+        rs = C.pool_map(npsym.shard, [(s_, m_, shapes) for s_ in objsym.systems() for m_ in (False, True)])
+        sym = dict(obligations=sum(r[0] for r in rs), failed=sum(len(r[1]) for r in rs), not_evaluable=sum(r[2] for r in rs), shapes=[list(x) for x in shapes],
+                   label="parametric symbolic evaluation of the real NumPy backend on object-dtype arrays of opaque tokens: element i of every result is term-identical to the "
+                         "object-backend result for element i - for every value (only the array shapes are bounded); extraction change: backends.numpy._is_type_safe accepts the object dtype; "
+                         "operations applying Python comparison operators to columns are not evaluable this way and stay bounded")
+        extra += [(oid, d) for r in rs for p_, oid, d in r[1]]
+        n_extra += sym["obligations"]
     if extra_checks:
         F = E.Fails()
         extra_checks(F)
-        n_extra = F.n
-        extra = [(oid, d) for p, oid, d in F.bad]
+        n_extra += F.n
+        extra += [(oid, d) for p, oid, d in F.bad]
     failures = bad + [(oid, d) for oid, ok, d in pr if not ok] + extra
     groups = {}
     for oid, detail in failures:
@@ -49,7 +60,7 @@ def run(prop, tags, title, extra_checks=None, assumptions=(), replay_handler="vv
     coverage = dict(evaluations=n, distinct_nontrivial=len(u) * 40 + sum(len(j[1]) for j in b) * 10,
                     rule="one evaluation = one run-time contract (value of one coordinate of one call against the object backend, operand snapshot, structure, extra field, "
                          "result class) at one lattice point; distinct non-trivial = (operation x coordinate-system signature x flavor) combinations, counted conservatively",
-                    failed=len(failures), known_findings=nk, violations=nv, probes=len(pr), bound=BOUNDS, exhaustive=False,
+                    failed=len(failures), known_findings=nk, violations=nv, probes=len(pr), bound=BOUNDS, exhaustive=False, symbolic_numpy=sym,
                     samples=[dict(call="rotate_euler(zyx)[rhophi,eta,tau|mom|ak-option]", contract="every coordinate of every element equals the object-backend result; None positions kept"),
                              dict(call="add[xy,z|gen|np(3)]x[rhophi,theta|mom|object]", contract="element i == object result i; operands bit-for-bit unchanged; momentum flavor")],
                     explanation=f"{title}  BOUNDED stand-in (run-time contracts on the real NumPy/Awkward glue; never counted as proved): {n} contract evaluations over the lattice "
@@ -67,7 +78,12 @@ def replay(prop, rp, path):
     import re
     oid = rp["first"]["obligation"]
     m = re.search(r"\[([a-z,]+)\|(mom|gen)\|([^\]]+)\]", oid)
-    if "/probe/" in oid or not m:
+    if "/symbolic-numpy/" in oid:
+        from .. import npsym
+        s1, mom = tuple(m.group(1).split(",")), m.group(2) == "mom"
+        n_, bad_, sk_ = C.pool_map(npsym.shard, [(s1, mom, ((3,), (2, 2))), (s1, mom, ((3,),))])[0]
+        hits = [x for x in bad_ if x[1] == oid]
+    elif "/probe/" in oid or not m:
         hits = [p for p in E.probes() if p[1].split("/", 1)[1] == oid.split("/", 1)[1] and not p[2]]
     else:
         s1, mom = tuple(m.group(1).split(",")), m.group(2) == "mom"
